@@ -193,11 +193,18 @@ struct Wit {
         return w;
     }
 };
+// The (expensive) witness is built for the first 3 failures of a key only; all are counted.
+static bool wantWitness(const std::string& key) {
+    static std::map<const std::string*, int> seen;   // keys are function-local statics: stable addresses
+    return ++seen[&key] <= 3;
+}
+static const std::function<Json()> NO_WITNESS;
 #define REQ(key, cond, detailExpr)                                   \
     do {                                                             \
         const bool ok_ = (cond);                                     \
-        if (!ok_) { std::ostringstream d_; d_ << detailExpr; W.detail = d_.str(); } \
-        c.require(key, ok_, wf);                                     \
+        if (ok_) c.require(key, true, wf);                           \
+        else if (wantWitness(key)) { std::ostringstream d_; d_ << detailExpr; W.detail = d_.str(); c.require(key, false, wf); } \
+        else c.require(key, false, NO_WITNESS);                      \
     } while (0)
 #define KEY(id, text) static const std::string id = text
 
@@ -208,14 +215,45 @@ struct Wit {
 enum { S_GROUND_SLAVES, S_SLAVES, S_JOINTS, S_BODY, S_CONS, S_MOB, S_NSEC };
 static const char* SECNAME[S_NSEC] = {"ground_slave_list", "slave_lists", "joints", "body_level_mobilizer_master",
                                       "loop_constraints", "mobilizers"};
-struct Sig { std::vector<int> s[S_NSEC]; };
+struct Sig {
+    std::vector<int> v;        // all sections, one after the other (a single allocation)
+    int end[S_NSEC];           // end offset of each section
+};
 static Sig signature(const MGM& g, int nb, int nj) {
     Sig x;
     const int NB = g.getNumBodies(), NJ = g.getNumJoints(), NM = g.getNumMobilizers(), NC = g.getNumLoopConstraints();
-    x.s[S_MOB].push_back(NM);
+    size_t need = 8 + 9 * (size_t)NM + 4 * (size_t)NC + 4 * (size_t)NB + 6 * (size_t)NJ;
+    for (int b = 0; b < NB; ++b) need += g.getBody(b).slaves.size();
+    x.v.reserve(need);
+    auto& v = x.v;
+    // ground slave list
+    { const MGM::Body& G = g.getBody(0); v.push_back((int)G.slaves.size()); for (int sl : G.slaves) v.push_back(sl); }
+    x.end[S_GROUND_SLAVES] = (int)v.size();
+    for (int b = 1; b < NB; ++b) { const MGM::Body& B = g.getBody(b); v.push_back((int)B.slaves.size()); for (int sl : B.slaves) v.push_back(sl); }
+    x.end[S_SLAVES] = (int)v.size();
+    v.push_back(NJ);
+    for (int j = 0; j < NJ; ++j) {
+        const MGM::Joint& J = g.getJoint(j);
+        v.push_back(J.mobilizer); v.push_back(J.loopConstraint); v.push_back(J.isAddedBaseJoint);
+        v.push_back(J.parentBodyNum); v.push_back(J.childBodyNum); v.push_back(J.jointTypeNum);
+    }
+    x.end[S_JOINTS] = (int)v.size();
+    v.push_back(NB);
+    for (int b = 0; b < NB; ++b) { const MGM::Body& B = g.getBody(b); v.push_back(B.level); v.push_back(B.mobilizer); v.push_back(B.master); }
+    x.end[S_BODY] = (int)v.size();
+    v.push_back(NC);
+    for (int k = 0; k < NC; ++k) {
+        const MGM::LoopConstraint& lc = g.getLoopConstraint(k);
+        void* jr = lc.getJointRef();
+        v.push_back(jr ? jointOfRef(jr, nj) : -7);
+        v.push_back(typeByName(lc.getJointTypeName()));
+        v.push_back(bodyOfRef(lc.getParentBodyRef(), nb));
+        v.push_back(bodyOfRef(lc.getChildBodyRef(), nb));
+    }
+    x.end[S_CONS] = (int)v.size();
+    v.push_back(NM);
     for (int m = 0; m < NM; ++m) {
         const MGM::Mobilizer& mo = g.getMobilizer(m);
-        auto& v = x.s[S_MOB];
         void* jr = mo.getJointRef();
         v.push_back(jr ? jointOfRef(jr, nj) : -7);
         v.push_back(mo.getLevel());
@@ -226,35 +264,16 @@ static Sig signature(const MGM& g, int nb, int nj) {
         v.push_back(mo.getNumFragments());
         v.push_back(typeByName(mo.getJointTypeName()));
     }
-    x.s[S_CONS].push_back(NC);
-    for (int k = 0; k < NC; ++k) {
-        const MGM::LoopConstraint& lc = g.getLoopConstraint(k);
-        auto& v = x.s[S_CONS];
-        void* jr = lc.getJointRef();
-        v.push_back(jr ? jointOfRef(jr, nj) : -7);
-        v.push_back(typeByName(lc.getJointTypeName()));
-        v.push_back(bodyOfRef(lc.getParentBodyRef(), nb));
-        v.push_back(bodyOfRef(lc.getChildBodyRef(), nb));
-    }
-    x.s[S_BODY].push_back(NB);
-    for (int b = 0; b < NB; ++b) {
-        const MGM::Body& B = g.getBody(b);
-        x.s[S_BODY].push_back(B.level); x.s[S_BODY].push_back(B.mobilizer); x.s[S_BODY].push_back(B.master);
-        auto& v = (b == 0) ? x.s[S_GROUND_SLAVES] : x.s[S_SLAVES];
-        v.push_back((int)B.slaves.size());
-        for (int sl : B.slaves) v.push_back(sl);
-    }
-    x.s[S_JOINTS].push_back(NJ);
-    for (int j = 0; j < NJ; ++j) {
-        const MGM::Joint& J = g.getJoint(j);
-        auto& v = x.s[S_JOINTS];
-        v.push_back(J.mobilizer); v.push_back(J.loopConstraint); v.push_back(J.isAddedBaseJoint);
-        v.push_back(J.parentBodyNum); v.push_back(J.childBodyNum); v.push_back(J.jointTypeNum);
-    }
+    x.end[S_MOB] = (int)v.size();
     return x;
 }
 static int firstDifference(const Sig& a, const Sig& b) {
-    for (int k = 0; k < S_NSEC; ++k) if (a.s[k] != b.s[k]) return k;
+    int ba = 0, bb = 0;
+    for (int k = 0; k < S_NSEC; ++k) {
+        const int la = a.end[k] - ba, lb = b.end[k] - bb;
+        if (la != lb || !std::equal(a.v.begin() + ba, a.v.begin() + a.end[k], b.v.begin() + bb)) return k;
+        ba = a.end[k]; bb = b.end[k];
+    }
     return -1;
 }
 
@@ -329,6 +348,7 @@ static bool checkGraph(Ctx& c, Wit& W, const std::function<Json()>& wf, const MG
     KEY(K_accAd, "accessor:isAddedBaseMobilizer");
     KEY(K_abLvl, "added_base:not_level_one_from_ground");
     KEY(K_abRev, "added_base:reversed_or_slave");
+    KEY(K_abNeed, "added_base:body_was_connected_to_ground_by_tree_eligible_joints");
     KEY(K_loopTree, "loopflag:must_be_loop_joint_is_tree_mobilizer");
     KEY(K_bodyOnce, "body:not_outboard_of_exactly_one_mobilizer");
     KEY(K_ground, "ground:mobilized_or_level_not_zero");
@@ -413,13 +433,25 @@ static bool checkGraph(Ctx& c, Wit& W, const std::function<Json()>& wf, const MG
         jp[j] = J.parentBodyNum; jc[j] = J.childBodyNum; jt[j] = libType(J.jointTypeNum);
         if (jt[j] < 0) { REQ(K_inJoint, false, "joint " << j << " has invalid type number " << J.jointTypeNum); return false; }
     }
-    // per-body joint lists agree with the joints
-    for (int i = 0; i < nb; ++i) {
-        const MGM::Body& B = g.getBody(i);
-        std::vector<int> asP, asC;
-        for (int j = 0; j < NJ; ++j) { if (jp[j] == i) asP.push_back(j); if (jc[j] == i) asC.push_back(j); }
-        REQ(K_lists, B.jointsAsParent == asP && B.jointsAsChild == asC && B.getNumJoints() == (int)(asP.size() + asC.size()),
-            "body " << in.bodies[i].name << ": jointsAsParent/jointsAsChild do not list exactly the joints naming it");
+    // per-body joint lists agree with the joints (lists are in order of addJoint)
+    {
+        std::vector<int> cntP(NB, 0), cntC(NB, 0);
+        bool rangeOk = true;
+        for (int j = 0; j < NJ; ++j) {
+            if (jp[j] < 0 || jp[j] >= nb || jc[j] < 0 || jc[j] >= nb) { rangeOk = false; continue; }
+            ++cntP[jp[j]]; ++cntC[jc[j]];
+        }
+        REQ(K_inJoint, rangeOk, "a joint names a body number outside the input bodies");
+        if (!rangeOk) return false;
+        for (int i = 0; i < nb; ++i) {
+            const MGM::Body& B = g.getBody(i);
+            bool ok = (int)B.jointsAsParent.size() == cntP[i] && (int)B.jointsAsChild.size() == cntC[i] && B.getNumJoints() == cntP[i] + cntC[i];
+            int prev = -1;
+            for (size_t k = 0; ok && k < B.jointsAsParent.size(); ++k) { const int j = B.jointsAsParent[k]; ok = j > prev && j < NJ && jp[j] == i; prev = j; }
+            prev = -1;
+            for (size_t k = 0; ok && k < B.jointsAsChild.size(); ++k) { const int j = B.jointsAsChild[k]; ok = j > prev && j < NJ && jc[j] == i; prev = j; }
+            REQ(K_lists, ok, "body " << in.bodies[i].name << ": jointsAsParent/jointsAsChild do not list exactly the joints naming it");
+        }
     }
 
     // ---- slaves (index >= nb)
@@ -579,6 +611,15 @@ static bool checkGraph(Ctx& c, Wit& W, const std::function<Json()>& wf, const MG
     }
 
     // ---- base bodies, isolated bodies
+    std::vector<int> groundComp(nb);   // components of the input graph over joints not flagged mustBeLoopJoint
+    for (int i = 0; i < nb; ++i) groundComp[i] = i;
+    for (bool changed = true; changed;) {
+        changed = false;
+        for (int j = 0; j < nj; ++j) if (!in.joints[j].loop && groundComp[jp[j]] != groundComp[jc[j]]) {
+            const int lo = std::min(groundComp[jp[j]], groundComp[jc[j]]);
+            groundComp[jp[j]] = groundComp[jc[j]] = lo; changed = true;
+        }
+    }
     for (int i = 1; i < nb; ++i) {
         const MGM::Body& B = g.getBody(i);
         const int jn = mobJoint[B.mobilizer];
@@ -591,6 +632,10 @@ static bool checkGraph(Ctx& c, Wit& W, const std::function<Json()>& wf, const MG
                 if (onGround) REQ(K_baseFree, jn >= nj && jt[jn] == typeByName("free"), "mustBeBaseBody body '" << B.name << "' is mobilized by joint '" << g.getJoint(jn).name << "'");
             }
         }
+        // "Additional free mobilizers are added as needed ... so that there is a path from every body
+        // ... to Ground": not needed for an unflagged body that tree-eligible joints connect to Ground
+        if (jn >= nj && !in.bodies[i].base)
+            REQ(K_abNeed, groundComp[i] != groundComp[0], "body '" << B.name << "' got an added base mobilizer although joints not flagged mustBeLoopJoint connect it to Ground");
         if (!bodyHasInputJoint[i])
             REQ(K_iso, jn >= nj && B.level == 1, "body '" << B.name << "' appears in no input joint; mobilized by joint '" << g.getJoint(jn).name << "' at level " << B.level);
     }
@@ -626,9 +671,16 @@ static void checkCleared(Ctx& c, Wit& W, const std::function<Json()>& wf, const 
         // Ground keeps level 0
         REQ(K_clrBody, B.level == (i == 0 ? 0 : -1) && B.mobilizer == -1 && B.master == -1 && B.slaves.empty() && g.getBodyNum(B.name) == i,
             when << ": body '" << B.name << "' level=" << B.level << " mobilizer=" << B.mobilizer << " master=" << B.master << " slaves=" << B.slaves.size());
-        std::vector<int> asP, asC;
-        for (int j = 0; j < nj; ++j) { if (in.joints[j].parent == i) asP.push_back(j); if (in.joints[j].child == i) asC.push_back(j); }
-        REQ(K_clrLists, B.jointsAsParent == asP && B.jointsAsChild == asC, when << ": body '" << B.name << "'");
+        bool lists = true;
+        {
+            size_t kp = 0, kc = 0;
+            for (int j = 0; j < nj && lists; ++j) {
+                if (in.joints[j].parent == i) { lists = kp < B.jointsAsParent.size() && B.jointsAsParent[kp] == j; ++kp; }
+                if (lists && in.joints[j].child == i) { lists = kc < B.jointsAsChild.size() && B.jointsAsChild[kc] == j; ++kc; }
+            }
+            lists = lists && kp == B.jointsAsParent.size() && kc == B.jointsAsChild.size();
+        }
+        REQ(K_clrLists, lists, when << ": body '" << B.name << "'");
     }
     for (int j = 0; j < nj; ++j) {
         const MGM::Joint& J = g.getJoint(j);
@@ -644,16 +696,18 @@ static Shape shapeOf(const Input& in) {
     const int nb = (int)in.bodies.size();
     std::vector<int> uf(nb);
     for (int i = 0; i < nb; ++i) uf[i] = i;
-    std::function<int(int)> find = [&](int x) { while (uf[x] != x) x = uf[x] = uf[uf[x]]; return x; };
+    auto find = [&](int x) { while (uf[x] != x) x = uf[x] = uf[uf[x]]; return x; };
     Shape s;
-    std::set<std::pair<int, int>> seen;
+    std::vector<int> pairs;
+    pairs.reserve(in.joints.size());
     for (auto& J : in.joints) {
         uf[find(J.parent)] = find(J.child);
-        auto pr = std::minmax(J.parent, J.child);
-        if (!seen.insert(pr).second) s.multi = true;
+        pairs.push_back(std::min(J.parent, J.child) * 4096 + std::max(J.parent, J.child));
         if (J.parent == 0 || J.child == 0) s.groundJoint = true;
         if (J.child == 0) s.groundChild = true;
     }
+    std::sort(pairs.begin(), pairs.end());
+    for (size_t k = 1; k < pairs.size(); ++k) if (pairs[k] == pairs[k - 1]) s.multi = true;
     for (int i = 0; i < nb; ++i) if (find(i) == i) { ++s.comps; }
     s.floating = s.comps - 1;   // components not containing Ground
     s.cyc = (int)in.joints.size() - nb + s.comps;
@@ -689,7 +743,15 @@ static void runGraph(Ctx& c, const Input& in, bool enumerated, bool sampleIt, bo
     int nMassless = 0, nBase = 0, nLoop = 0;
     bool masslessNoJoint = false, masslessOneMobileJoint = false, masslessMobile = false;
     {
-        std::vector<int> deg(nb, 0), mobileDeg(nb, 0);
+        std::vector<int> deg(nb, 0), mobileDeg(nb, 0), treeComp(nb);
+        for (int i = 0; i < nb; ++i) treeComp[i] = i;
+        for (bool changed = true; changed;) {   // components over the joints not flagged mustBeLoopJoint
+            changed = false;
+            for (auto& J : in.joints) if (!J.loop && treeComp[J.parent] != treeComp[J.child]) {
+                const int lo = std::min(treeComp[J.parent], treeComp[J.child]);
+                treeComp[J.parent] = treeComp[J.child] = lo; changed = true;
+            }
+        }
         for (auto& J : in.joints) { ++deg[J.parent]; ++deg[J.child]; if (TYPES[J.type].dof > 0) { ++mobileDeg[J.parent]; ++mobileDeg[J.child]; } if (J.loop) ++nLoop; }
         for (int i = 1; i < nb; ++i) {
             if (in.bodies[i].base) ++nBase;
@@ -697,8 +759,9 @@ static void runGraph(Ctx& c, const Input& in, bool enumerated, bool sampleIt, bo
                 ++nMassless;
                 if (deg[i] == 0) masslessNoJoint = true;
                 if (deg[i] == 1 && mobileDeg[i] == 1) masslessOneMobileJoint = true;
-                // a jointless massless body would get a free joint; otherwise it needs a joint with dofs
-                if (mobileDeg[i] > 0 || deg[i] == 0 || in.bodies[i].base) masslessMobile = true;
+                // its mobilizer has dofs if one of its joints has, or if it can get an added free
+                // joint: flagged base body, or not connected to Ground by tree-eligible joints
+                if (mobileDeg[i] > 0 || in.bodies[i].base || treeComp[i] != treeComp[0]) masslessMobile = true;
             }
         }
     }
@@ -714,21 +777,24 @@ static void runGraph(Ctx& c, const Input& in, bool enumerated, bool sampleIt, bo
         return;
     }
     W.g = &A;
-    c.setPhase("generateGraph");
+    c.setPhase("generate");
     GenResult ra = generate(A);
-    c.obs(std::string("outcome:") + ERRNAME[ra.err]);
+    {
+        static const std::string OBSNAME[] = {"outcome:ok", "outcome:err_massless_free", "outcome:err_massless_not_internal", "outcome:err_terminal_massless", "outcome:err_other"};
+        c.obs(OBSNAME[ra.err]);
+    }
 
     GraphStats st;
     std::string outcome;
     if (ra.err == E_NONE) {
         REQ(K_errMissing, !masslessNoJoint, "a massless body without any joint was accepted");
-        c.setPhase("check structure");
+        c.setPhase("check");
         const bool usable = checkGraph(c, W, wf, A, in, st);
         if (sampleIt) (void)dumpText(A);   // exercise dumpGraph under the sanitizers
         if (usable) {
             const Sig s1 = signature(A, nb, nj);
             // (1) clearGraph + generateGraph on the same object gives the same graph
-            c.setPhase("clearGraph + generateGraph");
+            c.setPhase("clear+regen");
             bool cleared = true;
             try { A.clearGraph(); } catch (const std::exception& e) { cleared = false; REQ(K_clearThrows, false, e.what()); }
             if (cleared) {
@@ -744,7 +810,7 @@ static void runGraph(Ctx& c, const Input& in, bool enumerated, bool sampleIt, bo
             // (2) an independent object built from the same input gives the same graph;
             // (3) generateGraph called again without clearGraph leaves the same graph
             if (secondObject) {
-            c.setPhase("second object");
+            c.setPhase("2nd object");
             MGM B;
             buildPlain(B, in);
             W.g = &B;
@@ -755,7 +821,7 @@ static void runGraph(Ctx& c, const Input& in, bool enumerated, bool sampleIt, bo
                 if (d >= 0) violLazy(c, std::string(in.viaEdits ? "edit:graph_differs_from_direct_build:" : "determinism:second_object_differs:") + SECNAME[d], W,
                                      std::string(in.viaEdits ? "graph of the maker built through add/delete edits" : "graph of the first object") + " differs from that of a fresh object with the same input in section " + SECNAME[d]);
                 else { static const std::string k = "determinism:second_object_same"; c.require(k, true, wf); }
-                c.setPhase("generateGraph twice without clearGraph");
+                c.setPhase("regen no clear");
                 GenResult rb2 = generate(B);
                 REQ(K_regenThrows, rb2.err == E_NONE, "second generateGraph (no clearGraph) threw: " << firstLine(rb2.msg, 300));
                 if (rb2.err == E_NONE) {
@@ -776,7 +842,7 @@ static void runGraph(Ctx& c, const Input& in, bool enumerated, bool sampleIt, bo
             REQ(K_errUnjust, just, "generateGraph threw '" << firstLine(ra.msg, 300) << "' but the input has no such body");
         }
         // the object stays usable: clearGraph restores the input and the failure repeats
-        c.setPhase("clearGraph after exception");
+        c.setPhase("clear after err");
         bool cleared = true;
         try { A.clearGraph(); } catch (const std::exception& e) { cleared = false; REQ(K_clearThrows, false, e.what()); }
         if (cleared) {
@@ -813,6 +879,7 @@ static uint64_t binom(int n, int k) {
     for (int i = 1; i <= k; ++i) r = r * (unsigned)(n - k + i) / (unsigned)i;
     return (uint64_t)r;
 }
+static int numFlagChoices(char mode, int n, int m);
 static std::vector<Block> parseEnum(const std::string& spec, uint64_t& total) {
     std::vector<Block> bl;
     total = 0;
@@ -913,16 +980,18 @@ static bool flagCanonical(const int* a, int m, int n, const Flags& f, std::vecto
     }
     return true;
 }
-static Input enumInput(const int* a, int m, int n, const Flags& f, uint64_t globalIdx) {
+// relabel: the member of the relabelling orbit that is actually run (mode C); null = as listed
+static Input enumInput(const int* a, int m, int n, const Flags& f, uint64_t globalIdx, const std::vector<int>* relabel) {
     Input in;
+    auto lab = [&](int b) { return relabel ? (*relabel)[b] : b; };
     in.bodies.resize(n + 1);
     in.bodies[0] = {"g", 0.0, false};
     for (int i = 1; i <= n; ++i) in.bodies[i] = {"b" + std::to_string(i), 1.0, false};
     bool loopAt[8] = {false, false, false, false, false, false, false, false};
     for (int q = 0; q < f.cnt; ++q) {
         const int at = f.atom[q];
-        if (at < n) in.bodies[at + 1].mass = 0;
-        else if (at < 2 * n) in.bodies[at - n + 1].base = true;
+        if (at < n) in.bodies[lab(at + 1)].mass = 0;
+        else if (at < 2 * n) in.bodies[lab(at - n + 1)].base = true;
         else loopAt[at - 2 * n] = true;
     }
     // insertion order of the joints: sorted, or a permutation derived from the index
@@ -934,7 +1003,7 @@ static Input enumInput(const int* a, int m, int n, const Flags& f, uint64_t glob
     in.joints.resize(m);
     for (int k = 0; k < m; ++k) {
         int p, ch, t; decodeJoint(a[ord[k]], n, p, ch, t);
-        in.joints[k] = {"j" + std::to_string(k), t, p, ch, loopAt[ord[k]]};
+        in.joints[k] = {"j" + std::to_string(k), t, lab(p), lab(ch), loopAt[ord[k]]};
     }
     return in;
 }
@@ -1091,7 +1160,13 @@ int main(int argc, char** argv) {
                 ++enumCases;
                 if (dry) continue;
                 runOne((long)gidx, [&] {
-                    const Input in = enumInput(cur, m, n, fl, gidx);
+                    const std::vector<int>* relabel = nullptr;
+                    if (B.mode == 'C' && !perms.empty()) {
+                        uint64_t h = gidx * 0xD1B54A32D192ED03ULL + 777;
+                        const uint64_t pick = splitmix64(h) % (uint64_t)(perms.size() + 1);
+                        if (pick < perms.size()) relabel = &perms[pick];
+                    }
+                    const Input in = enumInput(cur, m, n, fl, gidx, relabel);
                     runGraph(c, in, true, (gidx % 9973) == 0 || a.verbose, second <= 1 || gidx % (uint64_t)second == 0);
                 });
             }
